@@ -140,6 +140,9 @@ func (q *Query) header() string {
 		}
 		b.WriteString("))\n")
 	}
+	for _, d := range q.eng.SpecDefs {
+		b.WriteString(d + "\n")
+	}
 	for _, ax := range q.eng.Axioms {
 		b.WriteString("(assert " + ax + ")\n")
 	}
@@ -190,9 +193,10 @@ type Tier struct {
 	CrossCheck  bool
 	Seed        int
 	Parallel    int
+	Skip        func(o *Obligation) bool // obligations for which the expensive one-shot/model stage is not wanted
 }
 
-func quickTier(seed int) Tier    { return Tier{Name: "quick", BatchMS: 4000, SingleS: 10, Seed: seed, Parallel: 16} }
+func quickTier(seed int) Tier    { return Tier{Name: "quick", BatchMS: 1500, SingleS: 10, Seed: seed, Parallel: 16} }
 func thoroughTier(seed int) Tier { return Tier{Name: "thorough", BatchMS: 10000, SingleS: 60, CrossCheck: true, Seed: seed, Parallel: 16} }
 
 type batchSolver struct {
@@ -220,7 +224,7 @@ func initSem(n int) {
 	}
 }
 
-func runBatch(bs batchSolver, script string, ms int, seed int, n int) ([]string, float64) {
+func runBatch(pctx context.Context, bs batchSolver, script string, ms int, seed int, n int) ([]string, float64) {
 	fileMu.Lock()
 	fileCounter++
 	k := fileCounter
@@ -233,8 +237,11 @@ func runBatch(bs batchSolver, script string, ms int, seed int, n int) ([]string,
 	t0 := time.Now()
 	args := bs.cmd(f, ms, seed)
 	total := time.Duration(n*ms)*time.Millisecond + 20*time.Second
-	ctx, cancel := context.WithTimeout(context.Background(), total)
+	ctx, cancel := context.WithTimeout(pctx, total)
 	defer cancel()
+	if pctx.Err() != nil {
+		return make([]string, n), 0
+	}
 	cmd := exec.CommandContext(ctx, args[0], args[1:]...)
 	var out bytes.Buffer
 	cmd.Stdout = &out
@@ -300,47 +307,85 @@ func dischargeFn(r *FnResult, tier Tier) {
 			o.Solver = "trivial"
 			continue
 		}
+		if tier.Skip != nil && tier.Skip(o) {
+			o.Answer = "not-attempted"
+			o.Solver = "undecided on the unchanged tree; unclaimed"
+			continue
+		}
 		todo = append(todo, i)
 	}
 	if len(todo) == 0 {
 		return
 	}
-	var sb strings.Builder
-	sb.WriteString(r.query.header())
-	// obligations are interleaved with the assertion stream: an obligation sees only what was known when it was generated
-	ord := append([]int(nil), todo...)
-	sort.SliceStable(ord, func(a, b int) bool { return r.Obls[ord[a]].AssertIdx < r.Obls[ord[b]].AssertIdx })
 	pos := map[int]int{}
 	for k, i := range todo {
 		pos[i] = k
 	}
-	na := 0
-	for _, i := range ord {
-		o := r.Obls[i]
-		for ; na < o.AssertIdx && na < len(r.query.asserts); na++ {
-			sb.WriteString("(assert " + r.query.asserts[na] + ")\n")
+	// script for a subset of the obligations; obligations are interleaved with the assertion stream:
+	// an obligation sees only what was known when it was generated
+	mkScript := func(sub []int) string {
+		var sb strings.Builder
+		sb.WriteString(r.query.header())
+		ord := append([]int(nil), sub...)
+		sort.SliceStable(ord, func(a, b int) bool { return r.Obls[ord[a]].AssertIdx < r.Obls[ord[b]].AssertIdx })
+		na := 0
+		for _, i := range ord {
+			o := r.Obls[i]
+			for ; na < o.AssertIdx && na < len(r.query.asserts); na++ {
+				sb.WriteString("(assert " + r.query.asserts[na] + ")\n")
+			}
+			fmt.Fprintf(&sb, "(echo \"@@%d\")\n(push 1)\n(assert %s)\n(assert (not %s))\n(check-sat)\n(pop 1)\n", pos[i], o.Guard, o.Cond)
 		}
-		fmt.Fprintf(&sb, "(echo \"@@%d\")\n(push 1)\n(assert %s)\n(assert (not %s))\n(check-sat)\n(pop 1)\n", pos[i], o.Guard, o.Cond)
-	}
-	script := sb.String()
-	type br struct {
-		name string
-		ans  []string
-		sec  float64
-	}
-	ch := make(chan br, len(batchSolvers))
-	for _, bs := range batchSolvers {
-		bs := bs
-		go func() {
-			a, s := runBatch(bs, script, tier.BatchMS, tier.Seed, len(todo))
-			ch <- br{bs.name, a, s}
-		}()
+		return sb.String()
 	}
 	all := map[string][]string{}
-	for range batchSolvers {
-		x := <-ch
-		all[x.name] = x.ans
-		r.SolverSecs += x.sec
+	for _, bs := range batchSolvers {
+		all[bs.name] = make([]string, len(todo))
+	}
+	runStage := func(solvers []batchSolver, sub []int) {
+		if len(sub) == 0 {
+			return
+		}
+		script := mkScript(sub)
+		type br struct {
+			name string
+			ans  []string
+			sec  float64
+		}
+		ch := make(chan br, len(solvers))
+		for _, bs := range solvers {
+			bs := bs
+			go func() {
+				a, s := runBatch(context.Background(), bs, script, tier.BatchMS, tier.Seed, len(todo))
+				ch <- br{bs.name, a, s}
+			}()
+		}
+		inSub := map[int]bool{}
+		for _, i := range sub {
+			inSub[pos[i]] = true
+		}
+		for range solvers {
+			x := <-ch
+			for k := range x.ans {
+				if inSub[k] {
+					all[x.name][k] = x.ans[k]
+				}
+			}
+			r.SolverSecs += x.sec
+		}
+	}
+	if tier.CrossCheck {
+		runStage(batchSolvers, todo)
+	} else {
+		// quick: z3-new first, the other two only on what it leaves open
+		runStage(batchSolvers[:1], todo)
+		var open []int
+		for k, i := range todo {
+			if all[batchSolvers[0].name][k] != "unsat" {
+				open = append(open, i)
+			}
+		}
+		runStage(batchSolvers[1:], open)
 	}
 	var left []int
 	for k, i := range todo {
@@ -378,6 +423,9 @@ func dischargeFn(r *FnResult, tier Tier) {
 	var wg sync.WaitGroup
 	for _, i := range left {
 		o := r.Obls[i]
+		if tier.Skip != nil && tier.Skip(o) {
+			continue
+		}
 		wg.Add(1)
 		go func() {
 			defer wg.Done()
